@@ -658,6 +658,7 @@ func (d *driver) finish(t0 time.Time, nomin bool) int {
 		fmt.Printf("KNOWN-FINDING: property=%s %s (met in %d runs)\n", d.prop, k, knownHit[k])
 	}
 	nviol := 0
+	var unconfirmed []string
 	if code != 2 {
 		os.MkdirAll(filepath.Join(verifDir, "replays"), 0o755)
 		for i, r := range reports {
@@ -666,8 +667,7 @@ func (d *driver) finish(t0 time.Time, nomin bool) int {
 			}
 			path := d.confirmAndMinimise(r.f, nomin)
 			if path == "" {
-				fmt.Fprintf(os.Stderr, "MACHINERY: violation at seed %d did not reproduce from its replay file: %s\n", r.f.seed, r.sig)
-				code = 2
+				unconfirmed = append(unconfirmed, fmt.Sprintf("violation at seed %d did not reproduce from its replay file: %s", r.f.seed, r.sig))
 				continue
 			}
 			fmt.Printf("VIOLATION property=%s replay=%s\n", d.prop, path)
@@ -676,6 +676,16 @@ func (d *driver) finish(t0 time.Time, nomin bool) int {
 			if code == 0 {
 				code = 1
 			}
+		}
+	}
+	// a violation that cannot be replayed is machinery trouble - unless other
+	// violations of this run were confirmed, in which case it is only a warning
+	for _, u := range unconfirmed {
+		if nviol == 0 {
+			fmt.Fprintf(os.Stderr, "MACHINERY: %s\n", u)
+			code = 2
+		} else {
+			fmt.Fprintf(os.Stderr, "warning: %s\n", u)
 		}
 	}
 	d.writeEvidence(t0, nviol, kk)
